@@ -6,6 +6,7 @@ import PyxModel.Extract.XsdWire
     (c20 <diagram> "component name" (<xedit>…))
         -> (ok <xsd d comp> <xsd (applyXEdits es d) comp> <render (specEdits (xresolveAll d comp es) (xsdSpec d comp))>)
          | (error no-component)
+    (c20-text <diagram> "component name")  -> (ok "<the text of the written file>") | (error no-component)
 -/
 namespace Pyx.Driver.C20
 open Pyx Pyx.Sexp Pyx.Extract Pyx.Extract.Wire
@@ -20,6 +21,13 @@ def handle : List Sexp → Option Sexp
                 eXml (render (specEdits (xresolveAll d k.id es) (xsdSpec d k.id)))]
         | none => list [sym "error", sym "no-component"]
       | _, _ => list [sym "error", sym "bad-command"])
+  | [sym "c20-text", d, str name] =>
+    some (match dDiagram d with
+      | some d =>
+        match xsdByName d name with
+        | some t => list [sym "ok", str (String.ofList (fileText t))]
+        | none => list [sym "error", sym "no-component"]
+      | none => list [sym "error", sym "bad-command"])
   | _ => none
 
 end Pyx.Driver.C20
